@@ -471,6 +471,10 @@ func (m *tableMon) memberAfter(kind string, before, after *memberSnap, atomic bo
 		}
 		m.out += bank
 		delete(m.missedHands, id)
+		if m.departedAtGC == nil {
+			m.departedAtGC = map[string]int{}
+		}
+		m.departedAtGC[id] = after.gc // whoever comes back under this id is a new arrival
 		inRoster := before.inHand && indexOf(before.roster, id) >= 0
 		if m.cur != nil && m.cur.settled == nil && indexOf(m.cur.roster, id) >= 0 {
 			inRoster = true
@@ -566,6 +570,7 @@ func (m *tableMon) audit() {
 	m.lockQueueProbes()
 	if hp := m.pendingSettleHand; hp != nil && (st.Status != pt.TableStateStatus_TableGameSettled || st.GameCount != hp.k) {
 		m.flushSettlement()
+		c.Logf("LOCKS at horizon: %s", c.Sch.LockState())
 	}
 	quietMember := w.memberInFlight == 0
 	// C03: persistent disagreement between table and seat manager
@@ -800,6 +805,15 @@ func (m *tableMon) checkEnginePanics(tb *pt.Table) {
 		}
 		facts := map[string]any{"in": fn, "dealt_in_player_left_mid_hand": left, "external_pause_or_close_request": m.extTainted != ""}
 		c.Logf("ENGINE PANIC in %s (task %s): %s", fn, p.Task, p.Value)
+		if strings.Contains(fn, "settleGame") {
+			// the settlement died while crediting the results: entries were not (all) credited to their players
+			c.Viol("C02", "C02.settlement_crashed", facts, "the settlement of hand %d panicked in %s: %s - results were not credited to the players the entries denote", func() int {
+				if h != nil {
+					return h.k
+				}
+				return -1
+			}(), fn, p.Value)
+		}
 		if inHand {
 			c.Viol("C11", "C11.engine_goroutine_panicked", facts, "hand %d in progress: the engine goroutine %s panicked in %s: %s (a process crash in a deployment: the hand cannot finish)", h.k, p.Task, fn, p.Value)
 		} else {
